@@ -152,7 +152,9 @@ class CirclePixelRegion(PixelRegion):
         """
         from matplotlib.patches import Circle
 
-        xy = self.center.x - origin[0], self.center.y - origin[1]
+        # in float64: an unsigned integer origin would wrap around
+        xy = (np.subtract(self.center.x, origin[0], dtype=float),
+              np.subtract(self.center.y, origin[1], dtype=float))
         radius = self.radius
         mpl_kwargs = self.visual.define_mpl_kwargs(self._mpl_artist)
         mpl_kwargs.update(kwargs)
